@@ -138,6 +138,7 @@ package shimagent
 
 //@ func (*Server).Sign(s, key, data)
 //@   requires s != nil && inv(s) && unheld(s)
+//@   requires key != nil ==> keyutil.wfKey(key)
 //@   modifies mstate(addrof(s.mu)), mapof(s.certs), mapof(s.upstreamSSHCACertCache)
 //@   let w0 = old(calls(Server.SignWithFlags))
 //@   ensures calls(Server.SignWithFlags) == w0 + 1 && arg(Server.SignWithFlags, w0, 0) == s && arg(Server.SignWithFlags, w0, 1) == key && arg(Server.SignWithFlags, w0, 2) == data &&
@@ -146,6 +147,7 @@ package shimagent
 //@ func (*Server).SignWithFlags(s, key, data, flags)
 //@   flag logged
 //@   requires s != nil && inv(s) && unheld(s)
+//@   requires key != nil ==> keyutil.wfKey(key)
 //@   modifies mstate(addrof(s.mu)), mapof(s.certs), mapof(s.upstreamSSHCACertCache)
 //@   let f0 = old(calls(filter))
 //@   let g0 = old(calls(ExtendedAgent.SignWithFlags))
@@ -210,6 +212,7 @@ package shimagent
 //@ import certutil "github.com/theparanoids/ysshra/sshutils/cert"
 //@ func (*Server).AddHardCert(s, key, suffix)
 //@   requires s != nil && inv(s) && unheld(s)
+//@   requires key != nil ==> keyutil.wfKey(key)
 //@   modifies mstate(addrof(s.mu)), mapof(s.certs)
 //@   let l0 = old(calls(Agent.List))
 //@   let c0 = old(calls(CastSSHPublicKeyToCertificate))
@@ -237,4 +240,5 @@ package shimagent
 //@       calls(CastSSHPublicKeyToCertificate) == c0 + 1 && ret(CastSSHPublicKeyToCertificate, c0, 1) == nil && cert == ret(CastSSHPublicKeyToCertificate, c0, 0) && cert != nil &&
 //@       keyHash == keyhash(key) && !old(keyhash(key) in dom(s.certs)) && wheld(s) && inv(s)
 //@     invariant forall(j, 0 <= j && j <= rangeindex, blobid(iface(agentKeys[j])) != blobid(cert.Key))
+//@     invariant forall(j, 0 <= j && j < len(agentKeys), agentKeys[j] != nil) && cert.Key != nil
 //@     invariant forall(h#hashcode, true, ((h in dom(s.certs)) <==> old(h in dom(s.certs))) && s.certs[h] == old(s.certs[h]))
